@@ -153,11 +153,21 @@ func genC17Walk(r *Rand) *ProgCase {
 			mode = 48 - mode
 			p.Stmts = append(p.Stmts, PStmt{K: "bits", N: int64(mode)})
 		}
-		for k := r.Range(1, 5); k > 0; k-- {
-			p.Stmts = append(p.Stmts, poolStmtSized(r, mode))
+		// a label branch is often the FIRST statement after the switch (its ocode is rewritten in pass 2)
+		jumped := false
+		l := fmt.Sprintf("M%d", i)
+		if r.Chance(2, 3) {
+			p.Stmts = append(p.Stmts, PStmt{K: "jmp", Mn: Pick(r, []string{"JMP", "JE", "JNZ", "CALL", "JC", "JAE"}), Label: l})
+			jumped = true
 		}
-		if r.Bool() {
-			l := fmt.Sprintf("M%d", i)
+		for k := r.Range(1, 4); k > 0; k-- {
+			p.Stmts = append(p.Stmts, poolStmtSized(r, mode))
+			if !jumped && r.Chance(1, 4) {
+				p.Stmts = append(p.Stmts, PStmt{K: "jmp", Mn: Pick(r, []string{"JMP", "JE", "CALL"}), Label: l})
+				jumped = true
+			}
+		}
+		if jumped || r.Bool() {
 			p.Stmts = append(p.Stmts, PStmt{K: "label", Label: l}, PStmt{K: "movl", Reg: probeReg(mode, r.Intn(8)), Label: l})
 		}
 	}
